@@ -1062,6 +1062,11 @@ class _FuncTyper:
             r = ix.resolve_name(self.f.module, fn.id, self.f)
             if r:
                 return self.call_binding(e, r, arg_types, kw_types)
+            if fn.id == "type" and len(e.args) == 1 and not e.keywords and arg_types and arg_types[0]:
+                # type(x) with x : K is the class K itself (calling it constructs a K)
+                ks = frozenset(f"type:{t}" for t in arg_types[0] if t in ix.classes)
+                if ks:
+                    return ks
             if fn.id in BUILTIN_RET:
                 return frozenset({BUILTIN_RET[fn.id]})
             return UNKNOWN
